@@ -48,6 +48,18 @@ def monitor(c):
         if active:
             return ("%s: layers %r were not torn down" % (pname, active), "C04:teardown")
         nruns = len(truth.layer_runs(c, evs, {}) if False else [])
+    # a tearDown is attempted once per set-up: a layer whose tearDown raised is gone (recorded as an error), not kept
+    # for another attempt
+    for pname, evs in [("parent", parent)] + [("child %r" % (k,), v) for k, v in children.items()]:
+        up = {}
+        for e in evs:
+            if e[0] == "lsu" and e[2]:
+                up[e[1]] = up.get(e[1], 0) + 1
+            elif e[0] == "ltd" and e[1] in vis:        # (layers with both hooks: both are in the trace)
+                up[e[1]] = up.get(e[1], 0) - 1
+                if up[e[1]] < 0:
+                    return ("%s: the tearDown of layer %d is called again although the layer has not been set up again"
+                            % (pname, e[1]), "C04:teardown-twice")
     # a layer hook that raised is "recorded as an error": the verdict says so, and the layer's tests do not run on
     # top of a set-up that failed
     tests = {t["id"]: t for t in w["tests"]}
@@ -138,6 +150,11 @@ def gen_cases(ctx):
             for t in w["tests"]:
                 if t["kind"] in ("error", "errTearDown") and rng.random() < 0.5:
                     (t["body"] if t["kind"] == "error" else t["tearDown"])["exc"] = "sysexit"
+        if i % 6 == 5:
+            # layer hooks that fail with an OSError carrying an errno (out of memory, no space left): Exceptions like any
+            for l in w["layers"]:
+                if l["kind"] != "unit" and (l["setUpRaises"] or l["tearDownFaults"]):
+                    l["excStyle"] = "oserror"
         o = worlds.gen_opts(rng, allow=("buffer", "j", "verbose", "repeat"))
         if rng.random() < 0.5:
             o["buffer"] = True
